@@ -158,6 +158,7 @@ package snapshot
 //@   params g, r
 //@   results cnt, err
 //@   requires g != nil && g.Sender != nil && r != nil
+//@   ensures [C18.chunk.limit] DefaultSnapshotChunkSize + 1024 <= 4194304      // a full chunk message stays below the transport's default message limit (4 MiB), framing included
 //@   ensures [C18.readfrom.all] err == nil ==> g.Sender.stotal - old(g.Sender.stotal) == r.rtotal - old(r.rtotal) && cnt == r.rtotal - old(r.rtotal)
 //@   modifies g.Sender.nsent, g.Sender.sdataAt, g.Sender.slenAt, g.Sender.stotal, r.nrec, r.rtotal
 //@   loop 0 invariant fresh(chunk) && len(chunk) > 0 && g.Sender == old(g.Sender) && g.Sender.stotal - old(g.Sender.stotal) == r.rtotal - old(r.rtotal) && count == r.rtotal - old(r.rtotal)
@@ -223,6 +224,7 @@ package snapshot
 //@   modifies s.w.flushed
 //@ func (*snapshotFile).Close
 //@   requires s != nil && s.w != nil && s.File != nil
+//@   before os.(*File).Close assert [C18.close.order] !s.w.busy      // the compressor is closed - its buffered tail written out - before the file under it is
 //@   modifies s.w.flushed, s.w.busy
 //@ func (*snapshotFile).Path
 //@   requires s != nil
